@@ -13,6 +13,10 @@ CLAIMED = {
         text='Deductive proof of frame conditions over the real text of MemoryLoc::{with_offset,into_value,write_val,write_all,memset}, UnwrapOrAlloca::unwrap_or_alloca the variant->enum arm of cast_into_memory, create_nil_value and the nil branch of the optional->optional arm: every store these functions emit lies inside the destination object [loc, loc+size(ty)) (and a freshly allocated slot is exactly size(ty) bytes), for all types, offsets and loop iterations.',
         note='Partial: cast_into_memory as a whole, cast_struct_to_struct, cast_array_to_array and the ABI copy loops are not under contract -- only the store-emitting callees they use. Trusted: Cranelift store footprints (shims/verus/clif.rs), layout contracts (proved in unit layout), disjointness of distinct slots/objects, operands carry their type\'s width. "A copy is made on assignment" is only covered as "the copy writes exactly the destination".',
         ref='DESIGN.md 5 (C02)'),
+    'C03': dict(
+        text="Deductive proof over the real text of run_defers_to_label, break_to_label, and the lifted arms Stmt::Defer, Stmt::Continue, the start and the end of Expr::Block and the Expr::While arm, with ghost state (the sequence of expressions whose code has been emitted; the set of labels that may be jumped to): a reached defer is recorded last in the frame of its block and does not run then; when a block is left through its end the defers of its frame run there, last reached first, exactly once, and the frame is gone; break and continue run the defers of exactly the frames above the frame of the construct they name, innermost frame first, and leave the frame stack as it was; every labelled block and every loop has its own frame while its body is compiled (frame invariant), so unwinding stops at the construct being left and never runs defers of blocks that are not being left -- for frame stacks of any depth and any number of defers.",
+        note='Partial. Two genuine defects were found by these contracts on the pinned tree and repaired in /repo (break out of a loop ran all enclosing defers; continue ran none). Assumed: the recursive compile_expr emits the code of its expression at the insertion point and keeps its own pushes and pops balanced (stub); break / continue name only enclosing labels (hir); a deferred expression does not jump out of itself; Cranelift control flow shims. Not covered: return and .try propagation call sites (they go through break_to_label), hir::lower_defer / resolve_last_label, that the emitted code of a defer runs once at run time when blocks are re-entered (loops re-run their body code, which is the intended meaning).',
+        ref='DESIGN.md 5 (C03)'),
     'C08': dict(
         text='Deductive proof over the real text of compile_num_binary, cast_num, cast_ty_to_cranelift, NumberType::bit_width and the finalize_int closure: for every numeric type pair and every operand bit pattern the emitted instruction sequence denotes the two\'s-complement result the statement prescribes.',
         note='Trusted: Cranelift instruction semantics as written in shims/verus/clif.rs; FINAL_TYS table read; float arithmetic uninterpreted; operands are assumed to carry the operand type; i128<->float only for values that fit 64 bits. Not covered: which type the checker picks for an operation, comptime evaluation path.',
@@ -65,7 +69,6 @@ CLAIMED = {
 
 NOT_APPLICABLE = {
     'C01': 'whole-compiler semantic preservation: needs a simulation between formal HIR and Cranelift-IR semantics through a 1 600-line function outside any verifier dialect; the reachable clauses are claimed under C02/C08/C10/C17/C19',
-    'C03': 'defer ordering is a property of the generated control-flow graph across blocks; break_to_label uses iterator adapters Verus rejects and a FunctionCompiler cannot be built under Kani',
     'C04': 'comptime = JIT-compile + call through a transmuted function pointer; opaque to both verifiers',
     'C05': 'scope resolution walks rowan syntax trees inside filter_map closures that mutate self; no function boundary carries the rule',
     'C06': 'totality of the whole pipeline (parser recursion, inference fixpoint, ~400 unwrap sites); panic-freedom is proved only for the functions under contract, as a by-product',
